@@ -1,14 +1,15 @@
 """CONVFULL (development plugin)  the COMPOSED conversion: DicomStack.to_nifti(order, embed_meta) /
-to_nifti_wrapper(order) against the single Coq function Conv.Full.conv_full, in ONE correspondence check
-(data array, dtype, affine, header fields, state left behind, embedded extension, the voxel-order abstraction
-stacklib.wants_flip, and every lookup at the voxel index of a source file), plus three oracles in the
-properties' own words:
+to_nifti_wrapper(order) against the single Coq function Conv.Full.conv_full, in ONE correspondence check on PUBLIC
+results only (data array, dtype, affine, header fields, embedded extension as a map, the voxel-order abstraction
+stacklib.wants_flip, every lookup at the voxel index of a source file; the stack's private attributes are never read),
+plus oracles in the properties' own words, judged against the GENERATOR's ground truth:
 
   C01  the value looked up at the voxel index of every source file is what that file carried;
   C06  every key of the embedded extension sits at the dense canonical classification of the values the source
        files carried at the grid positions where their pixels ended up;
-  C12  a second conversion of the same stack, and a stack that received the files in reverse order with queries
-       and a conversion in between, give a byte-identical NIfTI.
+  C12  a second conversion of the same stack, and stacks that received the files in other orders with random
+       sequences of get_shape / get_data / get_affine / to_nifti(order', embed') / to_nifti_wrapper(order') calls
+       interleaved, give the same array, affine, header timing and dimension fields and embedded JSON (parsed).
 
 `FullPart` is reusable: the integrator adds it to props/c01.py, c06.py, c12.py (and may add it to c02.py / c20.py)
 together with the theorems of Props/C01full.v, Props/C12full.v, Props/C06conv.v.
@@ -36,41 +37,188 @@ TABLES = ["t_classes", "t_ext_tol", "t_stack", "t_filter", "t_time", "t_conv"]
 TRUSTED_BASE = [
     "as C02 / C20 (props/c02.py): nibabel's classic DicomWrapper as a contract (Conv/Geom.v), checked against the real "
     "wrapper on every case; exact rational arithmetic stands for float64 arithmetic on the generator's exact stream",
-    "as C01 (props/c01.py): the extracted / given dictionary of every file and the affine of its per-file extension "
-    "(float32 sform) are inputs; Python == on metadata values is structural equality (one value type per key)",
-    "nifti_header.get_best_affine() (float32 sform) is modelled as the exact affine of the geometry half: exact on "
-    "this generator (checked per case: every observed affine survives a float32 round trip, otherwise the affine "
-    "of the extension is compared to 2^-14 only)",
+    "model INPUTS read from the library (never used as the oracle's yardstick): the sorter's / converter's abstraction of "
+    "every file (convlib.abstract_gfile), the affine of each per-file extension (public NiftiWrapper.from_dicom_wrapper), "
+    "stacklib.wants_flip (compared with the model's own voxel-order bit), and in extract mode the dictionary "
+    "extract.default_extractor(ds) (the ground truth the property itself names); an oracle clause checks the dictionaries "
+    "against what the generator put into the files",
+    "nifti_header.get_best_affine() (float32 sform) is modelled as the exact affine of the geometry half; whether that is "
+    "exact is decided by the GENERATOR from the case's geometry (f32_geometry_exact: every entry of every single-file "
+    "affine and of the converted affine for any voxel order is a float32); exact-stream cases that are not are not generated",
+    "Python == on metadata values is structural equality (one value type per key)",
 ]
 ASSUMPTIONS = [
-    "classic single-frame data sets, complete S x T x V grids; orientations with exact (dyadic) cosines; "
-    "integral pixel values (no rescale in this stream; rescale is C02's)",
+    "classic single-frame data sets, complete S x T x V grids; integral pixel values (no rescale in this stream; rescale "
+    "is C02's)",
+    "two geometry streams: orientations with exact dyadic cosines (everything compared exactly, incl. the affine stored in "
+    "the extension) and TRUE obliques with float 3-4-5 / 2-3-6 cosines (image affine to 2^-30, float32 affines to 2^-14; "
+    "data, header fields, extension content and lookups exactly)",
     "DOMAIN RESTRICTION inherited from C01 (open finding N9): slice normals of the per-file extension affines "
     "pairwise np.allclose; all files of a generated series share one orientation",
-    "metadata filters depend on the key only",
+    "metadata filters depend on the key only; the filter is always handed to the stack explicitly (the shipped default "
+    "lists as literals): WHICH literals dcmstack ships by default is C14's statement, not C01's",
     "the canonical-class oracle reads the slice index of a source file off the output array (unique pixel value), "
     "i.e. it is phrased on OUTPUT voxel positions, like the property",
+    "private state of the stack (_files_info order, _shape_dirty) is not observed: that it is left right is judged by "
+    "what later calls return (history oracle)",
 ]
 
 ORDERS_QUICK = ['', 'LAS', 'RAS', 'LPI', 'ASL', 'SAL', 'ILP', 'PSR', 'SPL', 'AIL', 'IRP', 'RSP']
 SHAPES = [(2, 3), (3, 2), (2, 4), (3, 4)]          # rows != cols: a wrong slice_dim changes the slice count
+EXACT_ORIENT_POOL = ['ax', 'ax2', 'sag', 'sag', 'cor', 'cor', 'dz', 'dx', 'dsag', 'dcor']
+OBLIQUE_POOL = ['obl1', 'obl2', 'obl3']            # true obliques: float 3-4-5 / 2-3-6 cosines (inexact stream)
+
+# the default exclude / include literals shipped at the pinned commit (the filter is handed to the stack explicitly, so
+# the verdict for every key is the GENERATOR's: which literals dcmstack ships by default is C14's business, not C01's)
+SHIPPED_EXCL = ['Patient', 'Physician', 'Operator', 'Date', 'Birth', 'Address', 'Institution', 'Station', 'SiteName', 'Age',
+                'Comment', 'Phone', 'Telephone', 'Insurance', 'Religious', 'Language', 'Military', 'MedicalRecord', 'Ethnic',
+                'Occupation', 'Unknown', 'PrivateTagData', 'UID', 'StudyDescription', 'DeviceSerialNumber',
+                'ReferencedImageSequence', 'RequestedProcedureDescription', 'PerformedProcedureStepDescription',
+                'PerformedProcedureStepID']
+SHIPPED_INCL = ['ImageOrientationPatient', 'ImagePositionPatient']
+
+
+# ------------------------------------------------------------------------------------------------ generator truth
+
+def filter_lists(spec):
+    m = spec['mode']
+    if m == 'default':
+        return list(SHIPPED_EXCL), list(SHIPPED_INCL)
+    if m == 'default+extra':
+        return list(SHIPPED_EXCL) + list(spec['xe']), list(SHIPPED_INCL) + list(spec['xi'])
+    if m == 'regex':
+        return list(spec['excl']), (None if spec['incl'] is None else list(spec['incl']))
+    return None, None
+
+
+def truth_filter(spec):
+    """key -> is it removed?  From the case alone (Python's re on the generator's lists; no dcmstack)."""
+    m = spec['mode']
+    if m == 'none':
+        return lambda k: False
+    if m == 'lambda':
+        return M.LAMBDAS[spec['name']]
+    excl, incl = filter_lists(spec)
+    return lambda k: bool(any(re.search(e, k) for e in excl) and not (incl and any(re.search(i, k) for i in incl)))
+
+
+def make_filter(dcmstack, spec):
+    excl, incl = filter_lists(spec)
+    if excl is not None:
+        return dcmstack.make_key_regex_filter(excl, incl)
+    return M.make_filter(dcmstack, spec)
+
+
+def gen_truth(spec, hand):
+    """What the generator put into file `spec`: the whole dictionary in hand mode (it is built here, not read back from the
+    extractor), the generated DICOM elements in extract mode."""
+    d = {}
+    if hand:
+        d['PixelSpacing'] = [float(x) for x in spec['ps']]
+        d['ImageOrientationPatient'] = [float(x) for x in spec['iop']]
+        d['Rows'] = int(spec['rows'])
+        d['Columns'] = int(spec['cols'])
+        d['BitsStored'] = int(spec['bits_stored'])
+    d.update(copy.deepcopy(spec['tags']))
+    if hand:
+        d.update(copy.deepcopy(spec.get('extra', {})))
+    return d
+
+
+def same_value(a, b):
+    """generator value against a value that went through pydicom / the extractor (DS -> float, IS -> int)"""
+    if isinstance(a, bool) or isinstance(b, bool):
+        return a is b
+    if isinstance(a, (int, float)) and isinstance(b, (int, float)):
+        return a == b
+    if isinstance(a, (list, tuple)) and isinstance(b, (list, tuple)):
+        return len(a) == len(b) and all(same_value(x, y) for x, y in zip(a, b))
+    return type(a) is type(b) and a == b
+
+
+def _f32_ok(x):
+    x = Fraction(x)
+    if x == 0:
+        return True
+    d = x.denominator
+    if d & (d - 1):
+        return False
+    n = abs(x.numerator)
+    while n % 2 == 0:
+        n //= 2
+    return n < (1 << 24) and abs(x) < (1 << 60)
+
+
+def f32_geometry_exact(case):
+    """Decided from the CASE: every entry of every single-file affine and of the affine of the converted image, for any
+    voxel order, is a float32 (so the float32 sform that nibabel hands to the extension is the exact affine)."""
+    files = case['files']
+    S = case['dims'][0]
+    f0 = files[0]
+    iop = [Fraction(x) for x in f0['iop']]
+    ps = [Fraction(x) for x in f0['ps']]
+    zs = Fraction(f0['zs']) if f0.get('zs') is not None else Fraction(1)
+    n = C.cross(iop[3:6], iop[0:3])
+    cols = [[iop[3 + r] * ps[0] for r in range(3)], [iop[r] * ps[1] for r in range(3)], [n[r] * zs for r in range(3)]]
+    steps = []
+    by_vol = {}
+    for f in files:
+        by_vol.setdefault(tuple(f['cell'][1:]), []).append(f)
+    for vol in by_vol.values():
+        vol.sort(key=lambda f: f['cell'][0])
+        for a, b in zip(vol, vol[1:]):
+            steps.append([Fraction(y) - Fraction(x) for x, y in zip(a['ipp'], b['ipp'])])
+    vals = [x for c in cols for x in c] + [x for d in steps for x in d]
+    ext0 = [[c * (f0['rows'] - 1) for c in cols[0]], [c * (f0['cols'] - 1) for c in cols[1]]]
+    slc = [[x * (S - 1) for x in d] for d in steps[:1]] or [[0, 0, 0]]
+    for f in files:
+        ipp = [Fraction(x) for x in f['ipp']]
+        for r in range(3):
+            for e0 in (0, 1):
+                for e1 in (0, 1):
+                    for e2 in (0, 1, -1):
+                        vals.append(ipp[r] + e0 * ext0[0][r] + e1 * ext0[1][r] + e2 * slc[0][r])
+    return all(_f32_ok(v) for v in vals)
 
 
 # ------------------------------------------------------------------------------------------------ generation
 
+HIST_OPS = ['shape', 'data', 'affine', 'nifti', 'nifti', 'wrapper']
+
+
+def gen_history(rng, n, orders):
+    """another add order with queries and conversions interleaved at random places (queries on an incomplete stack may
+    raise: the caller goes on, as a user would)"""
+    order = list(range(n))
+    rng.shuffle(order)
+    ops = []
+    for _ in range(rng.randrange(1, 6)):
+        kind = rng.choice(HIST_OPS)
+        pos = rng.choice([n, n, n, rng.randrange(0, n + 1)])
+        if kind == 'nifti':
+            ops.append([pos, ['nifti', rng.choice(orders + [None]), rng.random() < 0.5]])
+        elif kind == 'wrapper':
+            ops.append([pos, ['wrapper', rng.choice(orders)]])
+        else:
+            ops.append([pos, [kind]])
+    ops.sort(key=lambda x: x[0])
+    return {'order': order, 'ops': ops}
+
+
 def gen_case(rng, tier, **over):
     big = tier != 'quick'
-    for _ in range(200):
+    for _ in range(400):
         kw = {}
         kw['S'] = rng.choice([1, 2, 3, 3, 4] + ([5] if big else []))
         kw['T'] = rng.choice([1, 1, 2, 2, 3])
         kw['V'] = rng.choice([1, 1, 1, 2, 3])
-        kw['orient'] = rng.choice(['ax', 'ax2', 'sag', 'sag', 'cor', 'cor', 'dz', 'dx', 'dsag', 'dcor'])
+        oblique = over.get('oblique', rng.random() < 0.15)
+        kw['orient'] = rng.choice(OBLIQUE_POOL if oblique else EXACT_ORIENT_POOL)
         kw['direction'] = rng.choice([1, -1])
-        kw['gap'] = rng.choice([0.5, 1.0, 2.0, 2.5, 3.0])
+        kw['gap'] = rng.choice([0.5, 1.0, 2.0, 2.5, 3.0]) if not oblique else rng.choice([1.1, 0.7, 2.0])
         kw['origin'] = [rng.choice([-8., -1.5, 0., 4., 16.25]) for _ in range(3)]
         kw['rows'], kw['cols'] = rng.choice(SHAPES)
-        kw['ps'] = rng.choice([[1.0, 1.0], [0.5, 0.75], [2.0, 2.0], [0.25, 1.5]])
+        kw['ps'] = rng.choice([[1.0, 1.0], [0.5, 0.75], [2.0, 2.0], [0.25, 1.5]]) if not oblique else rng.choice([[0.7, 0.9], [1.0, 1.0]])
         kw['zs'] = rng.choice([None, 1.5, 3.0, 0.5])
         kw['pixrep'] = rng.choice([0, 0, 1])
         kw['alloc'] = 16
@@ -80,17 +228,29 @@ def gen_case(rng, tier, **over):
         kw['acq'] = rng.choice(C.ACQ_PATTERNS)
         kw['tr'] = rng.choice(C.TR_VARIANTS)
         kw['phase'] = rng.choice(C.PHASE_VARIANTS)
-        kw['vo'] = rng.choice(ORDERS_QUICK if not big else [''] + C.CODES48)
+        orders = ORDERS_QUICK if not big else [''] + C.CODES48
+        kw['vo'] = rng.choice(orders)
         kw['vo2'] = None
-        kw.update({k: v for k, v in over.items() if k not in ('via', 'kind', 'meta_mode', 'filter')})
+        kw.update({k: v for k, v in over.items() if k not in ('via', 'kind', 'meta_mode', 'filter', 'oblique', 'abs')})
         try:
             c = C.make_stack_case(rng, **kw)
         except ValueError:
             continue
-        if not c['exact']:
-            continue
         c.pop('vo2', None)
+        if kw['orient'] in C.EXACT_ORIENTS:
+            # exact stream: float64 AND float32 exactness decided here, from the geometry of the case
+            if not c['exact'] or not f32_geometry_exact(c):
+                continue
+        else:
+            c['exact'] = False
         dims = c['dims']
+        # explicit orderings through abs_ordering (a shuffled list of the key's values defines the order)
+        for which in ('time_order', 'vector_order'):
+            o = c.get(which)
+            if o is not None and over.get('abs', rng.random() < 0.35):
+                vals = sorted(set(f['tags'][o['key']] for f in c['files']))
+                rng.shuffle(vals)
+                o['abs'] = vals
         mode = over.get('meta_mode') or rng.choice(['hand', 'hand', 'extract'])
         if mode == 'hand':
             plan = M.add_hand_meta(rng, c['files'], dims, rng.randrange(4, 8))
@@ -100,10 +260,12 @@ def gen_case(rng, tier, **over):
         c['plan'] = plan
         c['via'] = over.get('via') or rng.choice(['wrapper', 'wrapper', 'nifti', 'nifti', 'plain'])
         c['filter'] = over.get('filter') or M.gen_filter(rng)
+        c['histories'] = [gen_history(rng, len(c['files']), ORDERS_QUICK) for _ in range(2 if not big else 3)]
         nd = 3 + (dims[1] > 1 or dims[2] > 1) + (dims[2] > 1)
-        c['kind'] = over.get('kind') or '%s/%s/%dd/%s' % (mode, C.ORIENT_CLASS[kw['orient']], nd, c['via'])
+        absd = any((c.get(w) or {}).get('abs') for w in ('time_order', 'vector_order'))
+        c['kind'] = over.get('kind') or '%s/%s/%dd%s' % (mode, C.ORIENT_CLASS[kw['orient']], nd, '/abs' if absd else '')
         return c
-    raise ValueError('no exact case found')
+    raise ValueError('no case found')
 
 
 def gen_cases(rng, tier):
@@ -114,9 +276,18 @@ def gen_cases(rng, tier):
     for orient in ('sag', 'cor', 'ax'):
         for direction in (1, -1):
             for vo in ('LAS', 'ASL', 'ILP', ''):
-                out.append(gen_case(rng, tier, orient=orient, direction=direction, vo=vo, S=rng.choice([2, 3]),
+                out.append(gen_case(rng, tier, orient=orient, oblique=False, direction=direction, vo=vo, S=rng.choice([2, 3]),
                                     T=rng.choice([1, 2]), V=rng.choice([1, 2]), via=rng.choice(['wrapper', 'nifti']),
                                     kind='sys/%s/%s' % (orient, vo or 'none')))
+    # true obliques x permuting / flipping orders
+    for orient in OBLIQUE_POOL:
+        for vo in ('LAS', 'ASL', 'PSR', ''):
+            out.append(gen_case(rng, tier, orient=orient, oblique=True, vo=vo, S=rng.choice([2, 3]), T=rng.choice([1, 2]),
+                                V=rng.choice([1, 2]), via=rng.choice(['wrapper', 'nifti']), kind='sys/%s/%s' % (orient, vo or 'none')))
+    # explicit orderings given as abs_ordering lists
+    for (S, T, V) in [(2, 3, 1), (2, 2, 2), (3, 1, 3), (1, 3, 2)]:
+        out.append(gen_case(rng, tier, S=S, T=T, V=V, mode='timevec' if (T > 1 and V > 1) else 'time' if T > 1 else 'vec',
+                            abs=True, via='wrapper', kind='abs-%dx%dx%d' % (S, T, V)))
     # shapes (x,y,z,1,n), single-slice volumes, 3-D
     for (S, T, V) in [(2, 1, 2), (1, 2, 1), (1, 2, 2), (3, 1, 1), (1, 1, 1), (1, 1, 2)]:
         out.append(gen_case(rng, tier, S=S, T=T, V=V, via='wrapper', kind='grid-%dx%dx%d' % (S, T, V)))
@@ -127,21 +298,20 @@ def gen_cases(rng, tier):
 
 # ------------------------------------------------------------------------------------------------ runner
 
-def hand_meta(extracted, spec):
-    meta = M.hand_meta(extracted, spec)
-    if 'BitsStored' in extracted:
-        meta['BitsStored'] = extracted['BitsStored']      # read by get_data through get_meta('BitsStored', default=16)
-    return meta
-
-
-def f32_exact(mats):
-    import struct
-    for m in mats:
-        for row in m:
-            for x in row:
-                if struct.unpack('f', struct.pack('f', float(x)))[0] != float(x):
-                    return False
-    return True
+def public_parts(img):
+    """what C12 talks about: array, affine, header timing and dimension fields, embedded JSON (parsed: key order inside
+    the JSON text is not part of the statement)"""
+    import json
+    p = L.nifti_parts(img)
+    p.pop('bytes', None)
+    exts = []
+    for x in p.get('ext', []):
+        try:
+            exts.append(json.loads(x))
+        except Exception:
+            exts.append(x)
+    p['ext'] = exts
+    return p
 
 
 def run_impl(case):
@@ -151,31 +321,48 @@ def run_impl(case):
     import dcmstack
     from dcmstack import dcmmeta
     from dcmstack.extract import default_extractor
+    from nibabel.nicom.dicomwrappers import wrapper_from_data
     files = case['files']
     hand = case['meta_mode'] == 'hand'
     vo, via = case['vo'], case['via']
     embed = via != 'plain'
+    given = {i: gen_truth(files[i], True) for i in range(len(files))} if hand else {}
 
-    def build(order):
+    def build(order, ops=()):
+        """a stack that receives the files in `order`; `ops` = [(position, op)]: calls made before the add number
+        `position` (exceptions of these intermediate calls are the caller's to swallow: the stack is used further)"""
         st = dcmstack.DicomStack(time_order=L.make_ordering(dcmstack, case.get('time_order')),
                                  vector_order=L.make_ordering(dcmstack, case.get('vector_order')),
-                                 meta_filter=M.make_filter(dcmstack, case['filter']))
-        dss, wid, truth, affs = {}, {}, {}, {}
-        for i in order:
+                                 meta_filter=make_filter(dcmstack, case['filter']))
+        dss = {}
+
+        def run_ops(pos):
+            for p, op in ops:
+                if p != pos:
+                    continue
+                try:
+                    if op[0] == 'shape':
+                        st.get_shape()
+                    elif op[0] == 'data':
+                        st.get_data()
+                    elif op[0] == 'affine':
+                        st.get_affine()
+                    elif op[0] == 'nifti':
+                        st.to_nifti(op[1], embed_meta=bool(op[2]))
+                    elif op[0] == 'wrapper':
+                        st.to_nifti_wrapper(op[1])
+                except Exception:
+                    pass
+        for k, i in enumerate(order):
+            run_ops(k)
             ds = C.build_ds(files[i])
             dss[i] = ds
-            extracted = default_extractor(ds)
             if hand:
-                meta = hand_meta(extracted, files[i])
-                truth[i] = copy.deepcopy(meta)
-                st.add_dcm(ds, meta)
+                st.add_dcm(ds, copy.deepcopy(given[i]))
             else:
-                truth[i] = extracted
                 st.add_dcm(ds)
-            w = st._files_info[-1][0]
-            wid[id(w)] = files[i]['id']
-            affs[i] = [[float(x) for x in row] for row in w.meta_ext.affine]
-        return st, dss, wid, truth, affs
+        run_ops(len(order))
+        return st, dss
 
     def convert(st):
         if via == 'wrapper':
@@ -187,48 +374,45 @@ def run_impl(case):
         return st.to_nifti(vo, embed_meta=False), None
 
     order = case['add_order']
-    st, dss, wid, truth, affs = build(order)
-    absf = {i: C.abstract_gfile(dcmstack, files[i], dss[i], case) for i in order}
+    st, dss = build(order)
+    absf, truth, affs = {}, {}, {}
+    for i in order:
+        absf[i] = C.abstract_gfile(dcmstack, files[i], dss[i], case)
+        truth[i] = given[i] if hand else default_extractor(dss[i])
+        # the per-file wrapper exactly as add_dcm builds it (public constructor; the stack's own list is not read)
+        nw = dcmmeta.NiftiWrapper.from_dicom_wrapper(wrapper_from_data(dss[i]), copy.deepcopy(truth[i]))
+        affs[i] = [[float(x) for x in row] for row in nw.meta_ext.affine]
     obs = {'files': [absf[i] for i in order], 'affs': [affs[i] for i in order],
            'truth': [[files[i]['id'], M.plain(truth[i])] for i in order],
            'wants_flip': L.wants_flip(dcmstack, dss[order[0]], vo)}
-    filt = st._meta_filter
-    allkeys = sorted(set(k for d in truth.values() for k in d))
-    obs['filt'] = [[k, bool(filt(k, None))] for k in allkeys]
-    err = None
     img = w = None
     with C.capture_slice_times() as cap:
         try:
             img, w = convert(st)
         except Exception as e:
-            nm = type(e).__name__
-            err = C.ERRMAP.get(nm) or X.ERRMAP.get(nm) or ('ECrash:' + nm)
-            obs['exc'] = '%s: %s' % (nm, str(e)[:200])
-    obs['ids'] = [wid[id(fi[0])] for fi in st._files_info]
-    obs['dirty'] = bool(st._shape_dirty)
+            obs['raised'] = '%s: %s' % (type(e).__name__, str(e)[:200])
     obs['ncalls'] = len(cap.calls)
     obs['stimes_arg'] = cap.calls[-1] if cap.calls else None
-    if err is not None:
-        obs['err'] = err
+    if 'raised' in obs:
         return obs
     try:
         obs.update(C.observe_image(img, int(case.get('den', 1))))
     except Exception as e:
-        obs['err'] = 'ECrash:unobservable-image(%s)' % type(e).__name__
+        obs['raised'] = 'unobservable image (%s)' % type(e).__name__
         return obs
     obs['n_ext'] = len(img.header.extensions)
-    mats = list(affs.values()) + [obs['affine']]
     if embed:
         try:
             E = X.ext_to_json(w.meta_ext)
         except ValueError as e:
-            obs['err'] = 'ECrash:abstraction(%s)' % str(e)[:120]
+            obs['raised'] = 'extension cannot be abstracted (%s)' % str(e)[:120]
             return obs
         obs['ext'] = E
-        mats.append(E['aff'])
         loc = C.locate_files(case, obs['shape'], obs['data'])
+        allkeys = sorted(set(k for d in truth.values() for k in d))
         look = []
-        for fid in obs['ids']:
+        for f in files:
+            fid = f['id']
             ix = loc.get(fid)
             if ix is None:
                 look.append([fid, None, []])
@@ -241,34 +425,25 @@ def run_impl(case):
                     vals.append([k, {'err': X.ERRMAP.get(type(e).__name__, 'ECrash')}])
             look.append([fid, ix, vals])
         obs['look'] = look
-        # the extension's own affine must be the image's
-        obs['ext_aff_is_img_aff'] = bool(np.array_equal(np.array(E['aff'], dtype=np.float64),
-                                                        np.asarray(img.affine, dtype=np.float64)))
-    obs['f32'] = f32_exact(mats) and all(
-        np.array_equal(np.array(affs[i], dtype=np.float64),
-                       np.array([[Fraction(x[0], x[1]) for x in row] for row in absf[i]['faff']], dtype=np.float64))
-        for i in order)
-    # ---- C12 in the property's words: the same stack converted again; another add order with queries and a
-    # conversion in between: byte-identical NIfTI
-    hist = {}
-    ref = L.nifti_parts(img)
+    # ---- C12 in the property's words: the same stack converted again; other add orders with queries and conversions
+    # interleaved: the same array, affine, header fields and embedded JSON
+    hist = []
+    ref = public_parts(img)
     try:
         img_again, _ = convert(st)
-        pa = L.nifti_parts(img_again)
-        hist['again'] = [k for k in sorted(ref) if ref[k] != pa[k]]
+        pa = public_parts(img_again)
+        hist.append(['the same stack converted a second time', [k for k in sorted(ref) if ref[k] != pa[k]]])
     except Exception as e:
-        hist['again'] = ['raised %s' % type(e).__name__]
-    try:
-        st2 = build(list(reversed(order)))[0]
-        st2.get_shape()
-        st2.to_nifti(vo or 'LAS', embed_meta=embed)
-        st2.get_affine()
-        st2.get_data()
-        img2, _ = convert(st2)
-        p2 = L.nifti_parts(img2)
-        hist['other'] = [k for k in sorted(ref) if ref[k] != p2[k]]
-    except Exception as e:
-        hist['other'] = ['raised %s' % type(e).__name__]
+        hist.append(['the same stack converted a second time', ['raised %s' % type(e).__name__]])
+    for h in case.get('histories', []):
+        what = 'add order %s with calls %s' % (h['order'], [[p, op] for p, op in h['ops']])
+        try:
+            st2 = build([order[j] for j in h['order']], [(p, op) for p, op in h['ops']])[0]
+            img2, _ = convert(st2)
+            p2 = public_parts(img2)
+            hist.append([what, [k for k in sorted(ref) if ref[k] != p2[k]]])
+        except Exception as e:
+            hist.append([what, ['raised %s' % type(e).__name__]])
     obs['hist'] = hist
     return obs
 
@@ -279,6 +454,26 @@ def cmat_f(m):
     return clist(clist(cq(Fraction(float(x))) for x in row) for row in m)
 
 
+def coq_obs(case, obs):
+    if obs.get('raised') is not None or 'shape' not in obs:
+        return '(mkfobs true [] [] (@nil N) [] (None, None, None) 0%Q ((@nil N), (@nil N)) None None [])'
+    di = obs['dim_info']
+    st = obs['stimes_arg']
+    if 'ext' in obs:
+        ext = '(Some %s)' % X.ext_to_coq(obs['ext'])
+        look = clist(cpair(cnat(fid), cpair(clist(cz(i) for i in ix),
+                                             clist(cpair(cstr(k), X.resjv_to_coq(v)) for k, v in vals)))
+                     for fid, ix, vals in obs['look'] if ix is not None)
+    else:
+        ext, look = 'None', '[]'
+    return '(mkfobs false %s %s %s %s (%s, %s, %s) %s (%s, %s) %s %s %s)' % (
+        clist(cnat(x) for x in obs['shape']), clist(cz(x) for x in obs['data']), cstr(obs['dtype']),
+        clist(clist(cq(x) for x in row) for row in obs['affine']),
+        copt(di[0], cnat), copt(di[1], cnat), copt(di[2], cnat), cq(obs['pixdim4']),
+        cstr(obs['units'][0]), cstr(obs['units'][1]),
+        copt(st, lambda l: clist(cq(x) for x in l)), ext, look)
+
+
 def coq_case(case, obs):
     if not isinstance(obs, dict) or 'crash' in obs or 'files' not in obs:
         raise ValueError('implementation runner crashed: %r' % (obs,))
@@ -287,22 +482,14 @@ def coq_case(case, obs):
     metas = clist(clist(cpair(cstr(k), cjv(v)) for k, v in tr[1].items()) for tr in obs['truth'])
     maffs = clist(cmat_f(a) for a in obs['affs'])
     faffs = clist(C.cmat(a['faff']) for a in gs)
-    exact = bool(case['exact']) and bool(obs.get('f32', True))
     wf = obs['wants_flip']
     vo = 'None' if wf is None else '(Some %s)' % cbool(wf)
-    geom = C.coq_obs(case, obs)
-    if 'ext' in obs and obs.get('err') is None:
-        ext = '(Some %s)' % X.ext_to_coq(obs['ext'])
-        look = clist(cpair(cnat(fid), cpair(clist(cz(i) for i in ix),
-                                             clist(cpair(cstr(k), X.resjv_to_coq(v)) for k, v in vals)))
-                     for fid, ix, vals in obs['look'] if ix is not None)
-    else:
-        ext, look = 'None', '[]'
-    return '(mkfcase %s %s %s %s %s %s %s %s %s %s %s %s (mkfobs %s %s %s))' % (
+    tf = truth_filter(case['filter'])
+    allkeys = sorted(set(k for _, d in obs['truth'] for k in d))
+    return '(mkfcase %s %s %s %s %s %s %s %s %s false %s %s %s)' % (
         cbool(case.get('time_order') is not None), cbool(case.get('vector_order') is not None),
-        files, metas, maffs, faffs, cstr(case['vo']), cbool(case['via'] != 'plain'), cbool(exact),
-        cbool(case['filter']['mode'] == 'default'), clist(cpair(cstr(k), cbool(b)) for k, b in obs['filt']),
-        vo, geom, ext, look)
+        files, metas, maffs, faffs, cstr(case['vo']), cbool(case['via'] != 'plain'), cbool(bool(case['exact'])),
+        clist(cpair(cstr(k), cbool(bool(tf(k)))) for k in allkeys), vo, coq_obs(case, obs))
 
 
 # ------------------------------------------------------------------------------------------------ oracles
@@ -314,83 +501,131 @@ def cell_of(case, fid):
     return None
 
 
-def oracle(case, obs):
-    if not isinstance(obs, dict) or 'crash' in obs or 'files' not in obs:
-        return None
-    if obs.get('err') is not None:
-        return 'refused: complete stack (%s) was not converted: %s' % (case['dims'], obs.get('exc', obs['err']))
-    # ---- C12
-    hist = obs.get('hist', {})
-    if hist.get('again'):
-        return ('history: converting the same stack a second time changes the NIfTI (%s differ)' % ', '.join(hist['again']))
-    if hist.get('other'):
-        return ('history: the files added in reverse order, with queries and a conversion in between, give another '
-                'NIfTI (%s differ)' % ', '.join(hist['other']))
+def oracle_messages(case, obs):
+    """every clause is evaluated; C01's clauses first, then C06's, then C12's, then the consistency clauses"""
+    if not isinstance(obs, dict):
+        return ['crash: the implementation runner returned %r' % (obs,)]
+    if 'crash' in obs:
+        return ['crash: unexpected %s: %s' % (obs.get('crash'), str(obs.get('msg', ''))[:200])]
+    if 'files' not in obs:
+        return ['crash: no observation']
+    if obs.get('raised') is not None:
+        return ['refused: complete stack (%s) was not converted: %s' % (case['dims'], obs['raised'])]
+    out = []
+    hand = case['meta_mode'] == 'hand'
+    spec_of = {f['id']: f for f in case['files']}
+    gen = {fid: gen_truth(spec_of[fid], hand) for fid in spec_of}
+    seen_truth = {fid: d for fid, d in obs['truth']}
+    # the abstraction handed to the model against the generator's truth
+    for fid in sorted(gen):
+        for k, v in gen[fid].items():
+            if k not in seen_truth[fid] or not same_value(v, seen_truth[fid][k]):
+                out.append('abstraction: file %d was generated with %s = %r, the extracted dictionary says %r'
+                           % (fid, k, v, seen_truth[fid].get(k)))
+                break
+
+    def carried(fid, k):
+        return gen[fid][k] if k in gen[fid] else seen_truth[fid].get(k)
+    removed = truth_filter(case['filter'])
     if case['via'] == 'plain':
         if obs.get('n_ext'):
-            return 'embed: embed_meta=False but the header carries %d extension(s)' % obs['n_ext']
-        return None
-    E = obs['ext']
-    truth = {fid: d for fid, d in obs['truth']}
-    filt = dict((k, b) for k, b in obs['filt'])
-    if not obs.get('ext_aff_is_img_aff', True):
-        return 'affine: the affine recorded in the extension is not the affine of the image'
-    if E['shape'] != obs['shape']:
-        return 'shape: extension shape %s, image shape %s' % (E['shape'], obs['shape'])
-    if E['sdim'] != obs['dim_info'][2]:
-        return 'slice-dim: extension slice_dim %s, header slice axis %s' % (E['sdim'], obs['dim_info'][2])
-    # ---- C01: the lookup at the voxel index of every source file
-    if sorted(f for f, _, _ in obs['look']) != sorted(truth):
-        return 'located: not every source file is in the final file list'
-    for fid, ix, vals in obs['look']:
-        if ix is None:
-            return 'located: pixel (0,0) of file %d does not occur exactly once in the output array' % fid
-        for k, v in vals:
-            if filt.get(k):
+            out.append('embed: embed_meta=False but the header carries %d extension(s)' % obs['n_ext'])
+    else:
+        E = obs['ext']
+        located = all(ix is not None for _, ix, _ in obs['look'])
+        # ---- C01: the lookup at the voxel index of every source file
+        for fid, ix, vals in obs['look']:
+            if ix is None:
+                out.append('located: pixel (0,0) of file %d does not occur exactly once in the output array' % fid)
+                break
+        bad = None
+        for fid, ix, vals in obs['look']:
+            if ix is None or bad:
                 continue
-            want = truth[fid].get(k)
-            if 'err' in v:
-                return 'lookup raised: key %r at the voxel index %s of file %d raised %s' % (k, ix, fid, v['err'])
-            if v['val'] != want or type(v['val']) is not type(want):
-                what = 'lost' if v['val'] is None else 'altered'
-                return 'value %s: key %r at voxel index %s (file %d, cell %s): file carried %r, lookup returned %r' % (
-                    what, k, ix, fid, cell_of(case, fid), want, v['val'])
-    # ---- C06: dense canonical class of what the files carried at the positions where their pixels ended up
-    d = X.dims(E)
-    sd = E['sdim']
-    at = {}
-    for fid, ix, vals in obs['look']:
-        p = (ix[sd] if sd is not None else 0, ix[3] if len(ix) > 3 else 0, ix[4] if len(ix) > 4 else 0)
-        if p in at:
-            return 'located: two source files at grid position %s' % (p,)
-        at[p] = fid
-    if sorted(at) != sorted(X.grid(d)):
-        return 'located: the source files do not tile the %s grid of the extension' % (d,)
-    seen = set()
-    for k, c, vs in E['entries']:
-        if k in seen:
-            return 'classification: key %r appears in two classifications' % k
-        seen.add(k)
-        f = (lambda key: (lambda p: truth[at[p]].get(key)))(k)
-        want = X.canon_class(E['shape'], d, f)
-        if want != c:
-            return 'classification: key %r is stored as %s, the simplest classification of its values is %s' % (k, c, want)
-        if len(vs) != X.mult(d, c):
-            return 'classification: key %r in %s has %d values, expected %d' % (k, c, len(vs), X.mult(d, c))
-    for k in sorted(set(k for dct in truth.values() for k in dct)):
-        if not filt.get(k) and k not in seen and any(dct.get(k) is not None for dct in truth.values()):
-            return 'missing: key %r is not filtered and has a value in some file but is missing from the extension' % k
-    return None
+            for k, v in vals:
+                if removed(k):
+                    continue
+                want = carried(fid, k)
+                if 'err' in v:
+                    bad = 'lookup raised: key %r at the voxel index %s of file %d raised %s' % (k, ix, fid, v['err'])
+                elif not same_value(want, v['val']):
+                    what = 'lost' if v['val'] is None else 'altered'
+                    bad = 'value %s: key %r at voxel index %s (file %d, cell %s): file carried %r, lookup returned %r' % (
+                        what, k, ix, fid, cell_of(case, fid), want, v['val'])
+                if bad:
+                    break
+        if bad:
+            out.append(bad)
+        # ---- C06: dense canonical class of what the files carried at the positions where their pixels ended up
+        if located:
+            d = X.dims(E)
+            sd = E['sdim']
+            at = {}
+            clash = None
+            for fid, ix, vals in obs['look']:
+                p = (ix[sd] if sd is not None and sd < len(ix) else 0, ix[3] if len(ix) > 3 else 0, ix[4] if len(ix) > 4 else 0)
+                if p in at:
+                    clash = 'located: two source files at grid position %s of the extension' % (p,)
+                at[p] = fid
+            if clash is None and sorted(at) != sorted(X.grid(d)):
+                clash = 'located: the source files do not tile the %s grid of the extension' % (d,)
+            if clash:
+                out.append(clash)
+            else:
+                seen = set()
+                for k, c, vs in E['entries']:
+                    if k in seen:
+                        out.append('classification: key %r appears in two classifications' % k)
+                        break
+                    seen.add(k)
+                    f = (lambda key: (lambda p: carried(at[p], key)))(k)
+                    want = X.canon_class(E['shape'], d, f)
+                    if want != c:
+                        out.append('classification: key %r is stored as %s, the simplest classification of its values is %s' % (k, c, want))
+                        break
+                    if len(vs) != X.mult(d, c):
+                        out.append('classification: key %r in %s has %d values, expected %d' % (k, c, len(vs), X.mult(d, c)))
+                        break
+                allk = sorted(set(k for fid in gen for k in list(gen[fid]) + list(seen_truth[fid])))
+                for k in allk:
+                    if not removed(k) and k not in seen and any(carried(fid, k) is not None for fid in gen):
+                        out.append('missing: key %r is not filtered and has a value in some file but is missing from the extension' % k)
+                        break
+                    if removed(k) and k in seen:
+                        out.append('filtered: key %r is removed by the filter but present in the extension' % k)
+                        break
+        # consistency of the extension with the image it is embedded in (shape / slice axis are what lookups go by)
+        if E['shape'] != obs['shape']:
+            out.append('shape: extension shape %s, image shape %s' % (E['shape'], obs['shape']))
+        if E['sdim'] != obs['dim_info'][2]:
+            out.append('slice-dim: extension slice_dim %s, header slice axis %s' % (E['sdim'], obs['dim_info'][2]))
+    # ---- C12
+    for what, diff in obs.get('hist', []):
+        if diff:
+            out.append('history: %s gives another image (%s differ)' % (what, ', '.join(diff)))
+            break
+    return out
+
+
+def oracle(case, obs):
+    msgs = oracle_messages(case, obs)
+    if not msgs:
+        return None
+    # rule 2: prefer a message that is not a registered open finding (CONVFULL has none: the first one)
+    return msgs[0]
 
 
 def signature(case, obs, msg):
-    return 'convfull-' + re.sub(r'[^a-z]+', '-', (msg or '').split(':')[0].lower())[:40]
+    head = (msg or '').split(':')[0].lower()
+    if head == 'crash':
+        return 'crash/full/%s' % (obs.get('crash') if isinstance(obs, dict) else 'runner')
+    return 'convfull-' + re.sub(r'[^a-z]+', '-', head)[:40]
 
 
 def nontrivial(case, obs):
-    if not isinstance(obs, dict) or obs.get('err') is not None or 'shape' not in obs:
+    if not isinstance(obs, dict) or obs.get('raised') is not None or 'shape' not in obs:
         return False
-    return case['via'] != 'plain' and (len(obs['shape']) > 3 or obs['dim_info'][2] != 2 or obs['ids'] != sorted(obs['ids']))
+    return case['via'] != 'plain' and (len(obs['shape']) > 3 or obs['dim_info'][2] != 2 or case['add_order'] != sorted(case['add_order']))
 
 
 def shrink(case):
@@ -398,6 +633,12 @@ def shrink(case):
         c = copy.deepcopy(case); c['vo'] = ''; yield c
     if case['filter']['mode'] != 'none':
         c = copy.deepcopy(case); c['filter'] = {'mode': 'none'}; yield c
+    if len(case.get('histories', [])) > 1:
+        for k in range(len(case['histories'])):
+            c = copy.deepcopy(case); c['histories'] = [case['histories'][k]]; yield c
+    for k, h in enumerate(case.get('histories', [])):
+        for j in range(len(h['ops'])):
+            c = copy.deepcopy(case); del c['histories'][k]['ops'][j]; yield c
     for tag in ('RepetitionTime', 'InPlanePhaseEncodingDirection', 'AcquisitionTime'):
         if any(tag in f['tags'] for f in case['files']):
             c = copy.deepcopy(case)
@@ -417,20 +658,22 @@ def shrink(case):
 class FullPart:
     NAME = "full"
     CORR_REQUIRE = ("From Coq Require Import Qcanon.\nFrom DV Require Import Common.Jv Stack.Model Orient.Model Ext.Types Ext.Model "
-                    "Conv.Geom Conv.Header Conv.Meta Conv.CorrGeom Conv.Full Conv.FullCorr.")
+                    "Conv.Geom Conv.Header Conv.Meta Conv.Full Conv.FullCorr.")
     CORR_CASE_TYPE = "FullCorr.fcase"
     CORR_CHECK = "FullCorr.check"
     CORR_SHOW = "FullCorr.show"
     SHARD = 10
-    IMPL_TIMEOUT = 120
+    IMPL_TIMEOUT = 900
     RULE = ("complete S x T x V grids (quick S <= 4, T, V <= 3) over axial / sagittal / coronal / in-plane rotated / oblique "
-            "orientations with dyadic cosines x both slice directions x pixel matrices with rows != cols and unique values x "
-            "voxel orders (identity, involutions, 3-cycles; thorough: all 48 + none) x acquisition-time / TR / phase variants x "
-            "metadata through add_dcm(ds, meta) with a hand-built dict (12 value patterns x 5 value types, None values, missing "
-            "keys) or dcmstack's own extraction x 5 filter families x {to_nifti_wrapper(order), to_nifti(order, embed_meta=True), "
-            "to_nifti(order, embed_meta=False)} x shuffled add order; per case a second conversion of the same stack and a "
-            "reversed-add-order stack with queries and a conversion in between (byte comparison); non-trivial = embedding with a "
-            "4-D/5-D result, a moved slice axis or a re-sorted file list")
+            "orientations with dyadic cosines (exact stream) and true obliques with float 3-4-5 / 2-3-6 cosines (15 %) x both slice "
+            "directions x pixel matrices with rows != cols and unique values x voxel orders (identity, involutions, 3-cycles; "
+            "thorough: all 48 + none) x acquisition-time / TR / phase variants x time / vector ordering guessed, by key, or by "
+            "abs_ordering list (35 % of the explicit ones, shuffled) x metadata through add_dcm(ds, meta) with a generator-built "
+            "dict (12 value patterns x 5 value types, None values, missing keys) or dcmstack's own extraction x 5 filter families x "
+            "{to_nifti_wrapper(order), to_nifti(order, embed_meta=True), to_nifti(order, embed_meta=False)} x shuffled add order; per "
+            "case a second conversion of the same stack and 2 (thorough 3) random histories: another add order with 1-5 calls of "
+            "get_shape / get_data / get_affine / to_nifti(order' incl. None, embed') / to_nifti_wrapper(order') at random positions, "
+            "also between adds; non-trivial = embedding with a 4-D/5-D result, a moved slice axis or a shuffled add order")
     gen_cases = staticmethod(gen_cases)
     run_impl = staticmethod(run_impl)
     coq_case = staticmethod(coq_case)
